@@ -119,6 +119,14 @@ class Ctx:
                 ret.append((c, r, mo))
                 continue
             if "crash" in r:
+                if crash_in_real_code(r):
+                    # an exception escaped from the real code where the (unchanged) code raises none:
+                    # the operation now fails -> report it with the case as failing input
+                    st["unexpected_exceptions"] += 1
+                    self.oracle_hit(c, {"kind": "unexpected-exception", "error": r["crash"][:300], "where": crash_site(r)}, group=group)
+                    self.note_case(c, ["unexpected-exception"], len(ml))
+                    ret.append((c, r, mo))
+                    continue
                 raise lean.InfraError("harness crashed on case %s: %s\n%s" % (canon(c)[:300], r["crash"], r.get("tb", "")))
             ir = r["ok"]
             for d in ir.get("oracle", []) or []:
@@ -259,6 +267,37 @@ class Ctx:
         )
         with open(os.path.join(EVID, "%s.json" % self.pid), "w") as f:
             json.dump(ev, f, indent=1, sort_keys=True, default=str)
+
+
+def _tb_files(r):
+    import re
+    return re.findall(r'File "([^"]+)", line (\d+), in (\S+)', r.get("tb", "") or "")
+
+
+def crash_in_real_code(r):
+    """True when the innermost frame of a worker crash lies in the library under test
+    (or in a third-party library called by it), not in the harness."""
+    fr = _tb_files(r)
+    if not fr:
+        return False
+    repo = os.environ.get("METADOR_REPO", "/repo").rstrip("/") + "/src/"
+    harness = os.path.join(VERIF, "harness")
+    through_repo = any(f.startswith(repo) for f, _, _ in fr)
+    # innermost frame that belongs to the harness or to the repo
+    for f, _, _ in reversed(fr):
+        if f.startswith(harness):
+            return False
+        if f.startswith(repo):
+            return through_repo
+    return False
+
+
+def crash_site(r):
+    repo = os.environ.get("METADOR_REPO", "/repo").rstrip("/") + "/src/"
+    for f, ln, fn in reversed(_tb_files(r)):
+        if f.startswith(repo):
+            return "%s:%s in %s" % (f[len(repo):], ln, fn)
+    return ""
 
 
 def default_compare(case, impl_res, model_out):
